@@ -7,6 +7,10 @@ from harness import unicode_sweep
 impl = _ver.impl
 
 
+def any_exception(v):
+    return Exn('raises') if isinstance(v, Exn) else v
+
+
 def run(ctx):
     rng = ctx.rng
     unicode_sweep.sweep(ctx, ['is_pydigit', 'is_nd', 'is_space'])
@@ -38,7 +42,9 @@ def run(ctx):
     wide = [x for n in (18, 19, 20, 31, 32, 33, 63, 64, 65, 127, 128, 129, 255, 256, 257) for x in ('9' * n, '1' + '0' * n, '0' * 3 + '9' * n)]
     cpairs += [(a, b) for a in wide for b in wide]
     allc = matrix + spairs + cpairs
-    bad = ctx.compare('corr:compare_strings', [('compare_strings', [a, b]) for a, b in allc + odd], impl)
+    bad = ctx.compare('corr:compare_strings', [('compare_strings', [a, b]) for a, b in allc], impl)
+    # characters outside the table are outside the property: whether the comparison raises is compared, the class of the exception is not
+    bad += ctx.compare('corr:compare_strings:outside-the-table', [('compare_strings', [a, b]) for a, b in odd], impl, norm=any_exception)
 
     # 4. whole versions
     vpairs = _ver.version_pairs(ctx, ctx.n(20000, 300000))
